@@ -22,7 +22,8 @@ META = {
     'assumptions': ['ASCII letters only in case-varied positions (Python re.I folds a few non-ASCII letters; outside the statement)'],
 }
 
-NAMES = ('div', 'Div', 'DIV', 'span', 'SPAN', 'p', 'b', 'B')
+# svg/circle/g: html5lib puts them (and what they contain) into the SVG namespace inside an HTML document
+NAMES = ('div', 'Div', 'DIV', 'span', 'SPAN', 'p', 'b', 'B', 'svg', 'circle', 'g')
 ATTR_NAMES = ('title', 'TITLE', 'data-x', 'Data-X', 'type', 'Type', 'lang')
 ATTR_VALUES = ('abc', 'ABC', 'Abc', 'text', 'TEXT', 'b c', 'B c', 'x-y', 'X-y')
 FLAVOURS = ('html.parser', 'lxml', 'html5lib', 'html-api', 'xhtml', 'lxml-xml', 'xml-api')
